@@ -3,6 +3,7 @@ package main
 // C08 — redactables compose: re-printing is identity, joining is concatenation.
 
 import (
+	"errors"
 	"reflect"
 	"strings"
 
@@ -206,7 +207,8 @@ func c08check(w *Worker, pool *c08pool, r *Rng, idx int64) (produced string) {
 		// JoinTo accepts any slice: each element is printed on its own (as Sprint would) and the delimiter goes in between,
 		// whatever the element kinds (Sprint's own spacing rule between operands must not show)
 		{
-			pieces := []interface{}{redact.RedactableBytes(pool.pick(r)), 7, nil, redact.Safe("s" + startM), "u", tS2{1, "x"}, redact.RedactableString(pool.pick(r)), redact.RedactableBytes(pool.pick(r)), 2.5, tStringer{"str"}}
+			pieces := []interface{}{redact.RedactableBytes(pool.pick(r)), 7, nil, redact.Safe("s" + startM), "u", tS2{1, "x"}, redact.RedactableString(pool.pick(r)), redact.RedactableBytes(pool.pick(r)), 2.5, tStringer{"str"},
+				&tS2{redact.Safe("login"), "alice"}, &[]interface{}{"a", redact.Safe("b")}, &map[string]interface{}{"k": "secret"}, errors.New("e"), (*tPErr)(nil), []byte("raw")}
 			var vals []interface{}
 			for i, m := 0, r.Intn(5); i < m; i++ {
 				vals = append(vals, pieces[r.Intn(len(pieces))])
